@@ -19,6 +19,7 @@ import (
 	"os"
 	"path/filepath"
 	"sort"
+	"strconv"
 	"strings"
 	"testing"
 	"testing/synctest"
@@ -45,7 +46,7 @@ func init() {
 		Rule: "sequences of 6..120 (thorough ..400) records of every kind the node writes (EventDataRoundState, peer/own ProposalMessage, BlockPartMessage, VoteMessage, timeouts, EndHeightMessage at increasing heights) written through the real baseWAL.Write/WriteSync " +
 			"into a real autofile.Group on disk, head size limit drawn from 200 B up to 'never', the group's periodic head-size check performed at tape-chosen instants between writes (also between the write and the flush of a WriteSync); 1 run in 6 uses block parts of 8..45 KB so that the group's 40 KB write buffer spills mid-record; " +
 			"then on the files on disk: truncation of the concatenation (= of the newest file for the last offsets) at EVERY offset and a single-byte change at EVERY offset (header bytes: up to 4 values, payload bytes: 1 value) when that fits the per-run budget of damaged reads (quick 6000, thorough 40000, less for logs with many or large records: the budget is capped by the decode work), " +
-			"else +-9 bytes around every marker, every file boundary, the end of the log and as many other record boundaries as fit, plus a seeded sample; a few cuts per run are also read through a freshly opened group in which the files after the cut are absent. One oracle evaluation = one damaged (or intact) log read back. " +
+			"else +-9 bytes around every marker, every file boundary, the end of the log and as many other record boundaries as fit, plus a seeded sample; a few cuts per run are also read through a freshly opened group in which the files after the cut are absent; half of the rotated logs are renumbered before the reopen so that their file indices straddle 999|1000 or 9999|10000 or lie beyond 999 (a long-lived node whose old files were pruned), and the reopened group's index range is compared with the directory. One oracle evaluation = one damaged (or intact) log read back. " +
 			"Non-trivial: >= 3 record kinds, >= 2 end-height markers, >= 200 damaged reads. Fingerprint: record kinds/sizes, file layout, per-class counts of read-back results.",
 		Real: []string{"consensus.baseWAL (NewWAL, Write, WriteSync, SearchForEndHeight)", "consensus.WALEncoder / WALDecoder / DataCorruptionError", "autofile.Group (buffered Write, Flush, RotateFile, readGroupInfo, NewReader) and GroupReader.Read across rotated files", "autofile.AutoFile on real files",
 			"ser codec of TimedWALMessage and of every consensus message type", "consensus msgInfo/timeoutInfo records (through the verif hook constructors)"},
@@ -56,7 +57,7 @@ func init() {
 		Assumptions: []string{
 			"Damage is a cut of the concatenated log (files after the cut empty or absent) or one altered byte; torn writes in the middle of older files, several damaged bytes, lost or reordered files are not generated.",
 			"Messages are compared by re-encoding the decoded TimedWALMessage (time stamp included) with the real codec against the bytes the real WALEncoder produced at write time; a codec that does not round-trip would be reported here although it belongs to C11.",
-			"Under truncation every completely written record before the cut must be yielded and every completely written marker found (both values of IgnoreDataCorruptionErrors). Under a single-byte change only soundness is demanded of SearchForEndHeight (found => written) and, of the decoder, the records before the damaged one plus nothing that was not written; continuing after a DataCorruptionError (what IgnoreDataCorruptionErrors does) must also never yield an unwritten message.",
+			"Under truncation every completely written record before the cut must be yielded and every completely written marker found (both values of IgnoreDataCorruptionErrors). Under a single-byte change SearchForEndHeight must be sound (found => written); when the changed byte is in the checksum or payload (length field intact, stream stays in step) a search with IgnoreDataCorruptionErrors=true must also find every other completely written marker, before and after the damaged record, and the decoder's error for that record must satisfy consensus.IsDataCorruptionError; for a changed length byte only soundness is demanded. The decoder must yield the records before the damaged one plus nothing that was not written; continuing after a DataCorruptionError (what IgnoreDataCorruptionErrors does) must also never yield an unwritten message.",
 			"Total-size pruning of old WAL files (checkTotalSizeLimit) is switched off; writer restarts on an existing log are not generated.",
 			"CRC32C detects every single-byte change; the oracle does not rely on it, but an undetected change that decodes to an unwritten message would be reported as a violation (probability 2^-32 per length-field change).",
 		},
@@ -314,6 +315,7 @@ type state struct {
 	// marker searches open every file from the newest down: on logs with many
 	// files only every searchStride-th damaged read is followed by searches
 	searchStride int
+	shift        int // rotated files renumbered by this much before the reopen (long-lived log)
 	searchWork   int // estimated file opens spent in searches so far
 	searchCap    int
 }
@@ -439,6 +441,55 @@ func run(c *kernel.Ctx) {
 		return
 	}
 
+	// ---- a long-lived node: the same files under the index numbers they would
+	// carry after ~1000 / ~10000 rotations (older files pruned long ago), so that
+	// the restart below has to cope with 4- and 5-digit file indices
+	age := c.Tape.Fork("age")
+	if rotations >= 1 && age.Bool(1, 2) {
+		switch age.Pick(4, 2, 2) {
+		case 0:
+			st.shift = 999 - age.Int(rotations) // straddles 999 | 1000
+		case 1:
+			st.shift = 9999 - age.Int(rotations) // straddles 9999 | 10000
+		default:
+			st.shift = 1000 + age.Int(5) // everything beyond 999
+		}
+		head := filepath.Join(dir, "wal")
+		for i := rotations - 1; i >= 0; i-- {
+			if err := os.Rename(fmt.Sprintf("%s.%03d", head, i), fmt.Sprintf("%s.%03d", head, i+st.shift)); err != nil {
+				c.HarnessTrouble("renumber: %v", err)
+				return
+			}
+		}
+		c.Probe("long_lived_log_reopened")
+	}
+	c.Finger("shift", st.shift)
+	// what the directory holds, read without the code under test
+	diskMin, diskMax := -1, -1
+	if ents, err := os.ReadDir(dir); err == nil {
+		for _, e := range ents {
+			if suf, isRot := strings.CutPrefix(e.Name(), "wal."); isRot {
+				if idx, err := strconv.Atoi(suf); err == nil {
+					if diskMin < 0 || idx < diskMin {
+						diskMin = idx
+					}
+					if idx > diskMax {
+						diskMax = idx
+					}
+				}
+			}
+		}
+	}
+	if diskMin < 0 {
+		diskMin, diskMax = 0, 0 // only the head
+	} else {
+		diskMax++ // the head follows the newest rotated file
+	}
+	if diskMin != st.shift || diskMax != st.shift+rotations {
+		c.HarnessTrouble("directory holds indices %d..%d, expected %d..%d", diskMin, diskMax, st.shift, st.shift+rotations)
+		return
+	}
+
 	// ---- reader: a freshly opened WAL on the same directory (what a restarted node has)
 	rw, err := cs.NewWAL(filepath.Join(dir, "wal"))
 	if err != nil {
@@ -449,7 +500,19 @@ func run(c *kernel.Ctx) {
 		rw.Group().Close()
 		rw.Group().Head.Close()
 	}()
-	lay, err := readLayout(dir, rw.Group().MinIndex(), rw.Group().MaxIndex())
+	if gmin, gmax := rw.Group().MinIndex(), rw.Group().MaxIndex(); gmin != diskMin || gmax != diskMax {
+		digits := "3-digit"
+		if diskMax > 1000 {
+			digits = "4+digit"
+		}
+		if c.Violate("wal-group", "reopen-index-range/"+digits+"-indices",
+			"after reopening, the group covers file indices %d..%d but the directory holds rotated files %d..%d plus the head (index %d): the records in the files it does not see cannot be replayed or searched",
+			gmin, gmax, diskMin, diskMax-1, diskMax) {
+			st.sample(map[string]int{}, limit, 0, 0)
+			return
+		}
+	}
+	lay, err := readLayout(dir, diskMin, diskMax)
 	if err != nil {
 		c.HarnessTrouble("read layout: %v", err)
 		return
@@ -744,7 +807,7 @@ func (st *state) sample(kinds map[string]int, limit int64, nCut, nFlip int) {
 	}
 	st.c.Sample(map[string]interface{}{
 		"records": len(st.recs), "kinds": kinds, "head_size_limit": lim, "file_sizes": files, "marker_heights": hs,
-		"file_starts_mid_record": st.midRecord, "truncated_reads": nCut, "bytechange_reads": nFlip, "read_back_results": st.stats,
+		"file_starts_mid_record": st.midRecord, "file_index_shift": st.shift, "truncated_reads": nCut, "bytechange_reads": nFlip, "read_back_results": st.stats,
 	})
 }
 
@@ -866,6 +929,8 @@ func errClass(err error) string {
 	}
 	s := err.Error()
 	switch {
+	case strings.HasPrefix(s, "DataCorruptionError"):
+		return "corruption-text-without-the-class"
 	case strings.HasPrefix(s, "failed to read checksum"):
 		return "err-read-checksum"
 	case strings.HasPrefix(s, "failed to read length"):
